@@ -406,3 +406,184 @@ func declaredPositional(cs *Case, path []string) []string {
 	}
 	return out
 }
+
+// checkC10Levels: positional fields on two or three levels of ONE command chain (the parser's own, a
+// command's, a nested command's).  The words in front of a command word fill the fields of the level
+// they are typed at; the command word is taken once those are full; the words behind it fill the
+// entered command's fields FROM ITS FIRST FIELD ON, a trailing slice absorbing the rest; words beyond
+// the fields are the remaining arguments.  Everything is stated from the construction.
+func checkC10Levels(c *Ctx, n int) {
+	r := c.Rng
+	for i := 0; i < n; i++ {
+		levels := 2 + r.Intn(2)
+		type lvl struct {
+			fields []string // field names, in order
+			kinds  []string
+			rest   string // name of the trailing slice ("" if none)
+			flag   string
+		}
+		var lv []lvl
+		var sd *StructDesc
+		fid := 0
+		// built innermost first
+		for l := levels - 1; l >= 0; l-- {
+			var x lvl
+			pos := &StructDesc{}
+			nf := 1 + r.Intn(3)
+			if l > 0 && r.Intn(5) == 0 {
+				nf = 0
+			}
+			for j := 0; j < nf; j++ {
+				fid++
+				name := fmt.Sprintf("P%d", fid)
+				ty := []string{"str", "str", "int"}[r.Intn(3)]
+				pos.Fields = append(pos.Fields, FieldDesc{Name: name, Exported: true, Kind: "v", Ty: ty})
+				x.fields = append(x.fields, name)
+				x.kinds = append(x.kinds, ty)
+			}
+			// only the innermost level may end in a slice (a slice never lets a command word through)
+			if l == levels-1 && r.Intn(2) == 0 {
+				fid++
+				x.rest = fmt.Sprintf("P%d", fid)
+				pos.Fields = append(pos.Fields, FieldDesc{Name: x.rest, Exported: true, Kind: "v", Ty: "Lstr"})
+			}
+			fid++
+			x.flag = fmt.Sprintf("--flag%d", l)
+			st := &StructDesc{Fields: []FieldDesc{{Name: fmt.Sprintf("Flag%d", fid), Exported: true, Kind: "v", Ty: "bool", Tag: fmt.Sprintf(`long:"flag%d"`, l)}}}
+			if len(pos.Fields) > 0 {
+				st.Fields = append(st.Fields, FieldDesc{Name: fmt.Sprintf("Pos%d", fid), Exported: true, Kind: "s", Tag: `positional-args:"yes"`, Sub: pos})
+			}
+			if sd != nil {
+				st.Fields = append(st.Fields, FieldDesc{Name: fmt.Sprintf("Cmd%d", fid), Exported: true, Kind: "s", Tag: fmt.Sprintf(`command:"cmd%d" alias:"c%d" subcommands-optional:"yes"`, l+1, l+1), Sub: sd})
+			}
+			if r.Intn(2) == 0 {
+				// declaration order of the command field and the positional struct does not matter
+				for a, b := 0, len(st.Fields)-1; a < b; a, b = a+1, b-1 {
+					st.Fields[a], st.Fields[b] = st.Fields[b], st.Fields[a]
+				}
+			}
+			sd = st
+			lv = append([]lvl{x}, lv...)
+		}
+		cs := &Case{Name: "app", NsDelim: ".", EnvNsDelim: "_", Opts: flags.PassDoubleDash}
+		cs.Build = append(cs.Build, BuildOp{Kind: "addgroup", Target: 1, Short: "Application Options", Struct: sd})
+		cs.Build = append(cs.Build, BuildOp{Kind: "setcmd", Target: 1, Attr: "subopt", Vals: []string{"1"}})
+		// the line: per level, exactly as many words as it has plain fields, then the command word
+		var argv []string
+		want := map[string]string{}
+		wn := 0
+		word := func(kind string) string {
+			wn++
+			if kind == "int" {
+				return strconv.Itoa(100 + wn)
+			}
+			return fmt.Sprintf("w%d", wn)
+		}
+		maybeFlag := func(l int) {
+			if r.Intn(3) == 0 {
+				argv = append(argv, lv[r.Intn(l+1)].flag)
+			}
+		}
+		stop := 1 + r.Intn(levels) // how many levels the line enters
+		var wantRest, wantRet []string
+		for l := 0; l < stop; l++ {
+			last := l == stop-1
+			nw := len(lv[l].fields)
+			if last {
+				nw = r.Intn(len(lv[l].fields) + 3)
+			}
+			for j := 0; j < nw; j++ {
+				maybeFlag(l)
+				switch {
+				case j < len(lv[l].fields):
+					w := word(lv[l].kinds[j])
+					want[lv[l].fields[j]] = w
+					argv = append(argv, w)
+				case lv[l].rest != "":
+					w := word("str")
+					wantRest = append(wantRest, w)
+					argv = append(argv, w)
+				default:
+					w := word("str")
+					// (behind the fields of a level that has subcommands a further word would be a command word)
+					if l < levels-1 {
+						continue
+					}
+					wantRet = append(wantRet, w)
+					argv = append(argv, w)
+				}
+			}
+			maybeFlag(l)
+			if !last {
+				argv = append(argv, []string{fmt.Sprintf("cmd%d", l+1), fmt.Sprintf("c%d", l+1)}[r.Intn(2)])
+			}
+		}
+		cs.Ops = []Op{{Kind: "parse", Args: argv}}
+		cs.Description = describeOps(cs)
+		c.RunCases([]*Case{cs}, func(cr *CaseResult) {
+			c.classifyCase(cr)
+			if cr.Real == nil || cr.Real.dead {
+				return
+			}
+			var obs parseObs
+			for _, o := range parseBlocks(cr) {
+				obs = o
+			}
+			c.Class(fmt.Sprintf("c10/levels: declared=%d entered=%d", levels, stop))
+			in := map[string]interface{}{"case": cs.Description, "argv": argv}
+			var decl []string
+			for l, x := range lv {
+				d := fmt.Sprintf("level %d: %v", l, x.fields)
+				if x.rest != "" {
+					d += " + slice " + x.rest
+				}
+				decl = append(decl, d)
+			}
+			in["positional_fields"] = decl
+			ok := obs.panic == "" && obs.errKind == "ok" && fmt.Sprintf("%q", obs.ret) == fmt.Sprintf("%q", wantRet)
+			got := fmt.Sprintf("%s %s type %d %q remaining %q", obs.panic, obs.errKind, obs.errType, obs.errMsg, obs.ret)
+			var wants []string
+			for l := range lv {
+				for j, f := range lv[l].fields {
+					fr, has := cr.Real.fields[f]
+					if !has {
+						continue
+					}
+					w, filled := want[f]
+					var have string
+					if lv[l].kinds[j] == "int" {
+						have = strconv.FormatInt(fr.val.Int(), 10)
+						if !filled {
+							w = "0"
+						}
+					} else {
+						have = fr.val.String()
+					}
+					wants = append(wants, f+"="+w)
+					got += " " + f + "=" + have
+					if have != w {
+						ok = false
+					}
+				}
+				if lv[l].rest != "" {
+					if fr, has := cr.Real.fields[lv[l].rest]; has {
+						var have []string
+						for k := 0; k < fr.val.Len(); k++ {
+							have = append(have, fr.val.Index(k).String())
+						}
+						wants = append(wants, fmt.Sprintf("%s=%q", lv[l].rest, wantRest))
+						got += fmt.Sprintf(" %s=%q", lv[l].rest, have)
+						if fmt.Sprintf("%q", have) != fmt.Sprintf("%q", wantRest) {
+							ok = false
+						}
+					}
+				}
+			}
+			if !ok {
+				in["case_file"] = c.saveCase(cr)
+			}
+			c.Check("every-level-binds-its-own-fields-from-the-first-on", ok, "C10:levels", in, got,
+				fmt.Sprintf("success, remaining %q, %s", wantRet, strings.Join(wants, " ")))
+		})
+	}
+}
